@@ -1,14 +1,20 @@
 package go9p
 
-func vxT0Unpack(dotu bool, n int) {
-	buf := vxBytes("in", n)
-	fc, sz, err := Unpack(buf, dotu)
-	if err != nil {
-		vxAssert(fc == nil && sz == 0, "err-shape")
-		vxReach("err")
-		return
-	}
-	vxObserve("type", fc.Type)
-	vxAssert(sz >= 7 && sz <= n, "size-range")
-	vxReach("ok")
+func vxT0Re() {
+	buf := []byte{10, 0, 0, 0, 107, 0, 0, 1, 0, 65, 0, 0}
+	fc, n, _ := Unpack(buf, false)
+	re := NewFcall(uint32(n) + 64)
+	perr := vxRepack(re, fc, false)
+	vxAssert(perr == nil, "perr")
+	fc3, _, _ := Unpack(re.Pkt, false)
+	a, b := fc, fc3
+	vxAssert(a.Type == b.Type, "1")
+	vxAssert(a.Fid == b.Fid, "2")
+	vxAssert(a.Tag == b.Tag, "3")
+	vxAssert(a.Error == b.Error, "4")
+	vxAssert(a.Errornum == b.Errornum, "5")
+	vxAssert(a.Unamenum == b.Unamenum, "6")
+	vxAssert(refDirEq(&a.Dir, &b.Dir, false), "7")
+	vxAssert(len(a.Data) == len(b.Data), "8")
+	vxAssert(vxSameFcall(a, b, false), "9")
 }
